@@ -45,6 +45,8 @@ def _schemes(tier):
          "penalties": [{"source": "s1", "source_intervals": [[1.0, 2.0]], "target": "s2", "target_intervals": [[2.0, 3.0]],
                         "parameter": "pen1"}], "param_options": {"pen1": {"vary": False}}},
     ]
+    out.append({"name": "par-gm-weight", "mcs": {"m1": {"labels": ["s1", "s2"], "pars": ["k1", "k2"]}},
+                "datasets": [{"label": "d1", "mc": ["m1"], "maxis": A4, "gaxis": G2, "weight": True, "order": "gm"}]})
     if tier == "thorough":
         out += [
             {"name": "par-two-groups", "mcs": {"m1": {"labels": ["s1", "s2"], "pars": ["k1", "k2"]}},
@@ -103,22 +105,24 @@ def _run_fault(cfg, rec):
         src = pl.Source(None)
         stubs = pl.install(p, src)
         rec.shims += p.record
-        state = {"armed": False}
-        fault = optim.InjectedFault("injected model fault #42")
+        state = {"armed": False, "fault": None}
 
         def hook(mc, dm):
             if state["armed"]:
-                raise fault
+                raise state["fault"]
 
         def fn(ctx):
             for s in stubs.values():
                 s.calls.clear()
                 s.cache.clear()
             k = ctx.choose(K + 1, "fault_at") + 1  # 1..K+1 ; K+1 = no fault
+            # the class of the exception the model raises is arbitrary too (a few representative classes)
+            fc = ctx.choose(optim.N_FAULT_CLASSES if cfg.get("fault_classes", True) and k <= K else 1, "fault_class")
+            state["fault"] = optim.fault_instance(fc)
             ls = _FaultingLS(ctx, K, k, state)
             svd = optim.SvdStub(ctx, well_conditioned=True)
             pl.FAULT_HOOK["hook"] = hook
-            out = {"k": k, "ls": ls}
+            out = {"k": k, "ls": ls, "fault": state["fault"]}
             stdout_before = sys.stdout
             try:
                 with Patcher() as p2, warnings.catch_warnings():
@@ -157,7 +161,7 @@ def _run_fault(cfg, rec):
             if kind == "exc":
                 rec.unexpected(ctx, f"harness run raised {type(out).__name__}: {out}", "fault:exception", wit)
                 continue
-            k, ls = out["k"], out["ls"]
+            k, ls, fault = out["k"], out["ls"], out["fault"]
             items = [("sys.stdout is restored", z3.BoolVal(out["stdout_after_optimize"] and out["stdout_after"]), "fault:stdout-not-restored"),
                      ("the caller's scheme is untouched", z3.BoolVal(not c10.diff_snapshots(out["snap0"], out["snap1"])), "fault:scheme-modified")]
             faulted = k <= K
@@ -309,12 +313,13 @@ def replay(data):
     K = cfg["K"]
     env0 = data.get("env", {})
     ks = [int(v) + 1 for n, v in env0.items() if n.startswith("fault_at")] or list(range(1, K + 2))
-    for k in ks:
+    fcs = [int(v) for n, v in env0.items() if n.startswith("fault_class")] or list(range(optim.N_FAULT_CLASSES))
+    for k, fc in [(k, fc) for k in ks for fc in (fcs if k <= K else fcs[:1])]:
         env = c02.salted("r1")
         state = {"armed": False}
-        fault = optim.InjectedFault("injected model fault #42")
+        fault = optim.fault_instance(fc)
 
-        def hook(mc, dm):
+        def hook(mc, dm, fault=fault, state=state):
             if state["armed"]:
                 raise fault
 
@@ -344,7 +349,7 @@ def replay(data):
                                 res = opt.create_result()
                             except Exception as ex:  # noqa: BLE001
                                 rexc = ex
-                    head = f"config {cfg['name']}, fault at evaluation {k if k <= K else None}"
+                    head = f"config {cfg['name']}, {type(fault).__name__} at evaluation {k if k <= K else None}"
                     if sys.stdout is not stdout_before:
                         return True, f"{head}: sys.stdout not restored"
                     if c10.diff_snapshots(snap0, c10.snapshot(scheme)):
